@@ -87,6 +87,9 @@ type runner struct {
 	crashes int
 	doneLines []string
 	post      []func() ([]Violation, bool)
+	imp           *importTrack
+	started       map[string]*Op
+	importCommits map[string]int
 }
 
 func (r *runner) curInc() *Incarnation {
@@ -111,7 +114,28 @@ func (r *runner) addV(vs ...Violation) {
 // execOp performs one client operation (called on a client goroutine).
 func (r *runner) execOp(op *Op, phase string) {
 	res := &OpResult{Op: op, Phase: phase}
-	req := op.Render(r.exports)
+	r.w.mu.Lock()
+	r.started[op.ID] = op
+	r.w.mu.Unlock()
+	if op.Kind == KImport && op.Remainder {
+		// the client resumes after the last log the destination holds
+		max := 0
+		for k := range r.w.db.CommittedSnapshot() {
+			if k.Table == "log" && k.Ledger == op.Ledger {
+				if id := int(u64(strings.TrimLeft(k.Key, "0"))); id > max {
+					max = id
+				}
+			}
+		}
+		op.ImportFrom = max + 1
+	}
+	r.w.mu.Lock()
+	exports := map[string]string{}
+	for k, v := range r.exports {
+		exports[k] = v
+	}
+	r.w.mu.Unlock()
+	req := op.Render(exports)
 	resp := r.w.Do(r.curInc(), op.ID, req)
 	res.Out = ParseOutcome(op, resp, resp.Hit)
 	if op.Kind == KExport && res.Out.Class == "ok" {
@@ -315,7 +339,7 @@ func runInBubble(t *testing.T, sc *Scenario, plan *Plan, ex *ExploreCfg, res *Ru
 	uuid.SetRand(base.Derive(101))
 	defer uuid.SetRand(nil)
 
-	r := &runner{t: t, w: w, sc: sc, byID: map[string]*OpResult{}, exports: map[string]string{}, state: map[rowKey]any{}, bySig: indexSigs(sc), crashedOps: map[string]bool{}}
+	r := &runner{t: t, w: w, sc: sc, byID: map[string]*OpResult{}, exports: map[string]string{}, state: map[rowKey]any{}, bySig: indexSigs(sc), crashedOps: map[string]bool{}, started: map[string]*Op{}, importCommits: map[string]int{}}
 	lis, rec := w.NewListener(sc.Knobs)
 	r.rec = rec
 	if sc.Worker != nil {
@@ -365,6 +389,9 @@ func runInBubble(t *testing.T, sc *Scenario, plan *Plan, ex *ExploreCfg, res *Ru
 		if !ok && w.harness == nil {
 			r.addV(Violation{sc.Property, "progress-after-faults-stop", fmt.Sprintf("operations still pending after faults stopped and %v of simulated time; parked=%v", w.simTime, w.ParkedKeys())})
 		}
+	}
+	if ok && sc.Params["restart-before-post"] != "" {
+		w.Crash()
 	}
 	if ok && len(sc.Post) > 0 {
 		ok = r.runPhase("post", [][]Op{sc.Post}, nil)
